@@ -1,6 +1,6 @@
 #!/bin/bash
 # tools/runall.sh [quick|thorough]  - run every claimed check on the unchanged tree, one line each
-cd /verif
+cd "$(dirname "$0")/.."
 T=${1:-quick}
 for p in $(cat manifest.d/CLAIMED); do
   s=$(date +%s)
